@@ -19,6 +19,7 @@ from harness import routing_util as ru
 from harness.core import Machinery
 
 PID = 'C12'
+RAMAN = {'quick': 8, 'thorough': 48}      # one generated mesh in so many holds RamanFiber spans (slow to design)
 
 TIERS = {
     'quick': dict(meshes4=100, pairs=24, triples=4, overlaps=8, meshes5=0, b3=60),
@@ -77,10 +78,10 @@ def run(chk):
     timing = dict(first_generation_and_b3_recording=round(time.time() - t0, 1))
     t1 = time.time()
     grouped = lambda b: bool(b['groups'])                        # noqa: E731
-    stats, traces, metas = ru.b2(chk, PID, jobs, keep=grouped, extra=recorded)
+    stats, traces, metas = ru.b2(chk, PID, raman_every=RAMAN[chk.tier], jobs=jobs, keep=grouped, extra=recorded)
     acc = [stats]
     ru.pipelined(parts[1:], lambda part: ru.generate(chk, part, 'c12-gen4', workers=ru.share(2), NSites=4, **consts),
-                 lambda jb: acc.append(ru.merge_stats(acc.pop(), ru.b2(chk, PID, jb, keep=grouped)[0])))
+                 lambda jb: acc.append(ru.merge_stats(acc.pop(), ru.b2(chk, PID, raman_every=RAMAN[chk.tier], jobs=jb, keep=grouped)[0])))
     stats = acc[0]
     timing['b2_replay_and_judgement'] = round(time.time() - t1, 1)
     chk.cov['b2_4sites'] = stats
@@ -88,7 +89,7 @@ def run(chk):
         t1 = time.time()
         ids5 = [i for i in ru.stratified_meshes(5, p['meshes5'], rng) if i != 0]
         jobs5 = ru.generate(chk, ids5, 'c12-gen5', NSites=5, **consts)
-        stats5, _, _ = ru.b2(chk, PID, jobs5, keep=grouped)
+        stats5, _, _ = ru.b2(chk, PID, raman_every=RAMAN[chk.tier], jobs=jobs5, keep=grouped)
         chk.cov['b2_5sites'] = stats5
         timing['b2_5sites'] = round(time.time() - t1, 1)
     # non-vacuity: solutions and errors, every group shape
